@@ -6,6 +6,7 @@ import (
 	"fmt"
 	"os"
 	"path/filepath"
+	"regexp"
 	"sync"
 
 	"github.com/dolthub/dolt/go/cmd/dolt/cli"
@@ -25,6 +26,8 @@ import (
 
 var cliMu sync.Mutex
 
+var progressRe = regexp.MustCompile(`\r?Processed [0-9.]+% of the file\r?\n?`)
+
 // doltCLI runs `dolt <args...>` with working directory dir. It returns the exit code and what the command printed.
 func doltCLI(dir, home string, args ...string) (int, string) {
 	cliMu.Lock()
@@ -38,9 +41,17 @@ func doltCLI(dir, home string, args ...string) (int, string) {
 	if err != nil {
 		return 99, err.Error()
 	}
-	dEnv := env.Load(ctx, func() (string, error) { return home, nil }, fs, doltdb.LocalDirDoltDB, "verif")
+	dEnv := env.LoadWithoutDB(ctx, func() (string, error) { return home, nil }, fs, doltdb.LocalDirDoltDB, "verif")
 	if cfg, ok := dEnv.Config.GetConfig(env.GlobalConfig); ok {
 		cfg.SetStrings(map[string]string{config.UserNameKey: "verif", config.UserEmailKey: "verif@example.com"})
+	}
+	// the real CLI runs with the repository as its working directory, and some writers (parquet) open relative paths
+	// through the process cwd; calls are serialised and no server runs while the CLI phase is active
+	if cwd, err := os.Getwd(); err == nil {
+		defer os.Chdir(cwd)
+	}
+	if err := os.Chdir(dir); err != nil {
+		return 99, err.Error()
 	}
 	var out bytes.Buffer
 	oldOut, oldErr := cli.CliOut, cli.CliErr
@@ -85,7 +96,7 @@ func doltCLI(dir, home string, args ...string) (int, string) {
 		cliCtx = c
 	}
 	code := cmd.Exec(ctx, name, rest, dEnv, cliCtx)
-	return code, out.String()
+	return code, progressRe.ReplaceAllString(out.String(), "")
 }
 
 func mustCLI(dir, home string, args ...string) error {
